@@ -247,8 +247,17 @@ def reopenFile (fileHashes : List Hash) (treeSize : Nat) : Option HashStore :=
 /-- Root of `cnt` leaves whose stored hashes start after `base - 1` store entries: `pos[p] += base - 1`
 (computed in `uint32` as `pos[p] + offset + k*2 - 1`, which is 0 only in the `m = 0` quirk of `subproof`),
 then `GetHash(pos[p] - 1)` and `_hash_fold`. -/
+def readAll (st : HashStore) (base : Nat) : List Nat → Except Err (List Hash)
+  | [] => .ok []
+  | p :: ps =>
+    match getHash1 st (p + base - 1) with
+    | .error e => .error e
+    | .ok h => match readAll st base ps with
+      | .error e => .error e
+      | .ok hs => .ok (h :: hs)
+
 def rangeRoot (st : HashStore) (base cnt : Nat) : Except Err Hash :=
-  match (getSubTreePos cnt).mapM (fun p => getHash1 st (p + base - 1)) with
+  match readAll st base (getSubTreePos cnt) with
   | .error e => .error e
   | .ok hs => hashFold H hs
 
